@@ -26,6 +26,14 @@ CLAIMED.update({
         design="DESIGN.md section 5, C17"),
 })
 
+CLAIMED.update({
+    "C09": dict(
+        text="Deductive proof (Verus) that the real body of compile_quoted_string_ex returns decode(s) for every input string, decode being written from the property's escape table (\\n \\r \\t \\a \\b \\f \\v \\0, any other escaped character stands for itself, a lone trailing backslash is dropped).",
+        note="Partial: extraction of literals before comment/macro processing (cpp::process), NUL termination/concatenation (compile_quoted_string, pest Pairs) and literal sizes are not under contract. vstd prophetic iterator spec of str::chars; char::from_u32 assumed specification; termination unproved.",
+        technique="contract-based deductive verification (Verus loop invariant over the prophetic Chars iterator, function extracted mechanically from /repo)",
+        design="DESIGN.md section 5, C09"),
+})
+
 NOT_APPLICABLE = {
     "C11": "no contract within reach: the property is about the comment/splice scanner in cpp::process (str::split*/byte slicing without vstd specifications), pest WHITESPACE/COMMENT rules (generated parser) and a relation between two whole compilations",
 }
